@@ -622,6 +622,13 @@ def run(res, tier):
     for ocls in ("TbfMortonSpaceIndex", "TbfHilbertSpaceIndex"):
         n8 += decomp.size_assertions(fa, facts, res, "C15.8.list-size-assertions", ocls)
     res.floor("C15.8", n8, 4, "size assertions in the list builders")
+    res.rule("C15.9 in the group wrapper a condition that reads a group's cell at a running position is preceded by the test of that position against the group's own number of cells (rule C01.2 probes: a scan bounded by anything else reads past the end of a short group)")
+    import c01
+    sub9 = tbf.Result("C01")
+    c01.guarded_probes(facts, sub9)
+    for v in sub9.violations:
+        res.violation("C15.9.guarded-probes", v["file"], v["function"], v["key"], v["line"], v["msg"])
+    res.instance("C15.9.guarded-probes", "group wrapper", "src/algorithms/sequential/tbfgroupkernelinterface.hpp", "%d conditions reading a cell at a running position" % len([i for i in sub9.instances if " probe@" in i["key"]]))
     res.rule("C15.5 a member that stores the address of an element of a container member is reset by every member function that clears / refills / reallocates that container")
     np_, nc_ = member_pointers_into_containers(facts, res)
     res.instance("C15.5.member-pointer-lifetime", "classes of src/core and src/algorithms", "umbrella 'core'", "%d classes with pointer-typed members examined, %d members hold addresses of container elements" % (nc_, np_))
